@@ -128,8 +128,11 @@ def _normalize_pad_width(
 
     # (ints: widths given as fixed-width NumPy integers wrap around when
     # added to the axis lengths)
-    return [(int(before), int(after))
-            for before, after in processed_pad_widths]
+    result = [(int(before), int(after))
+              for before, after in processed_pad_widths]
+    if any(before < 0 or after < 0 for before, after in result):
+        raise ValueError("pad widths cannot be negative")
+    return result
 
 
 def pad(array: Array,
